@@ -781,6 +781,16 @@ EXPORT errno_t _wcsnorm_reorder_s_chk(wchar_t *restrict dest, rsize_t dmax,
         }
 #endif
 
+#if SIZEOF_WCHAR_T > 2
+        if (unlikely(_UNICODE_MAX < cp)) {
+            if (seq_ext) {
+                free(seq_ext);
+            }
+            handle_werror(orig_dest, orig_dmax,
+                          "wcsnorm_reorder_s: cp is too high", ESLEMAX);
+            return RCNEGATE(ESLEMAX);
+        }
+#endif
         cur_cc = _combin_class(cp);
         if (cur_cc != 0) {
             if (seq_max < cc_pos + 1) {         /* extend if need */
@@ -954,6 +964,16 @@ EXPORT errno_t _wcsnorm_compose_s_chk(wchar_t *restrict dest, rsize_t dmax,
         }
 #endif
 
+#if SIZEOF_WCHAR_T > 2
+        if (unlikely(_UNICODE_MAX < cp)) {
+            if (seq_ext) {
+                free(seq_ext);
+            }
+            handle_werror(orig_dest, orig_dmax,
+                          "wcsnorm_compose_s: cp is too high", ESLEMAX);
+            return RCNEGATE(ESLEMAX);
+        }
+#endif
         cur_cc = _combin_class(cp);
 
         if (!valid_cpS) {
